@@ -286,6 +286,12 @@ func (p *Parser) parseArg(info *pOpcodeInfo, curObj *Object, argType pArgType) (
 			return nil, res
 		}
 
+		// A package cannot extend past the end of the package that encloses it.
+		if origOffset+pkgLen > p.r.pkgEnd {
+			kfmt.Fprintf(p.errWriter, "[table: %s, offset: 0x%x] package extends past the end of the enclosing package\n", p.tableName, origOffset)
+			return nil, parseResultFailed
+		}
+
 		// If this opcode requires deferred parsing just keep track of
 		// the package end and skip over it.
 		if p.mode == parseModeSkipAmbiguousBlocks && (info.flags&pOpFlagDeferParsing != 0) {
